@@ -213,6 +213,10 @@ func genCase(rt *rapid.T) *caseT {
 	}
 	if c.plan.IsMap() {
 		c.plan.ExprValues = rapid.IntRange(0, 3).Draw(rt, "exprvalues") == 0
+		// a slice of maps is split by Config.CreateBatchSize as well
+		if strings.HasPrefix(c.plan.Path, "maps") && rapid.IntRange(0, 4).Draw(rt, "maps.batchsize") == 0 {
+			c.cfg.CreateBatchSize = rapid.IntRange(1, 4).Draw(rt, "cfg.batch.maps")
+		}
 	}
 	nr := rapid.IntRange(1, 3).Draw(rt, "nreads")
 	for i := 0; i < nr; i++ {
